@@ -40,15 +40,40 @@ def _cls(target):
     if c == "_QueuedResourceWorkerAdapter":
         res = getattr(target, "_resource", None)
         if res is not None:
-            return type(res).__name__
+            target, c = res, type(res).__name__
+    if not scenarios._is_lib(type(target)):
+        return scenarios.lib_class_name(target) or c
     if c == "CallbackEntity":
         return "callback"
     return c
 
 
+def _inner_lib_class(event):
+    """For a generator process: class of ``self`` in the innermost *library* generator frame the process is
+    currently suspended in (follows the ``yield from`` chain), e.g. Mutex for a harness worker blocked in
+    ``yield from mutex.acquire()``.  None if the process is not suspended inside library code."""
+    gen = getattr(event, "process", None)
+    found = None
+    hops = 0
+    while gen is not None and hops < 32:
+        hops += 1
+        frame = getattr(gen, "gi_frame", None)
+        if frame is not None:
+            fn = frame.f_code.co_filename or ""
+            if "/happysimulator/" in fn:
+                slf = frame.f_locals.get("self")
+                if slf is not None and scenarios._is_lib(type(slf)):
+                    found = type(slf).__name__
+                elif slf is not None and scenarios.lib_class_name(slf):
+                    found = scenarios.lib_class_name(slf)
+        gen = getattr(gen, "gi_yieldfrom", None)
+    return found
+
+
 def _etype_family(et):
     et = str(et)
-    m = re.match(r"[A-Za-z_][A-Za-z_.:\-]*", et)
+    et = et.split("::", 1)[0]
+    m = re.match(r"[A-Za-z_][A-Za-z_.\-]*", et)
     return (m.group(0) if m else "event")[:40].rstrip(":-._")
 
 
@@ -72,8 +97,7 @@ def all_entity_classes():
             except Exception:  # noqa: BLE001
                 continue
             for n, o in vars(mod).items():
-                if inspect.isclass(o) and issubclass(o, Entity) and o.__module__ == m.name and not n.startswith("_") \
-                        and not inspect.isabstract(o):
+                if inspect.isclass(o) and issubclass(o, Entity) and o.__module__ == m.name and not n.startswith("_"):
                     names.add(n)
         _ALL = names
     return _ALL
@@ -128,11 +152,23 @@ def make_execute(obl, families=None):
                     if e.time.nanoseconds < now:
                         last = sim._last_event
                         em = getattr(last, "target", None)
-                        emitters.append((_cls(em) if em is not None else "unknown", em))
+                        name = _cls(em) if em is not None else "unknown"
+                        org = scenarios.ORIGIN.get(id(e))
+                        if org is not None and org[1] is e:
+                            emitters.append((org[0], None))
+                            continue
+                        if isinstance(em, scenarios._Glue) and not scenarios.lib_class_name(em):
+                            # a harness worker running a library generator (yield from store.put(...)):
+                            # attribute to the library frame the process is suspended in, if any
+                            inner = _inner_lib_class(last)
+                            if inner:
+                                name, em = inner, None
+                        emitters.append((name, em))
             return _inner(events)
         heap.push = push
 
-        at = {"t": None, "by": Counter(), "first": None, "later": False, "cont_later": False, "handled": set()}
+        at = {"t": None, "by": Counter(), "first": None, "later": False, "cont_later": False, "handled": set(),
+              "inner": Counter()}
 
         def on_event(event):
             t = event.time.nanoseconds
@@ -142,6 +178,10 @@ def make_execute(obl, families=None):
                 at["t"] = t
                 at["by"] = Counter()
             at["by"][c] += 1
+            if at["by"][c] > 2000 and at["by"][c] % 16 == 0 and not scenarios._is_lib(type(event.target)):
+                inner = _inner_lib_class(event)      # who is the harness worker blocked in?
+                if inner:
+                    at["inner"][inner] += 1
             if at["first"] is None:
                 at["first"] = t
             elif t > at["first"]:
@@ -177,9 +217,12 @@ def make_execute(obl, families=None):
         # (iii) spin
         if outcome == "spin":
             dom = at["by"].most_common(1)[0][0] if at["by"] else "unknown"
+            if dom not in all_entity_classes() and at["inner"]:
+                dom = at["inner"].most_common(1)[0][0]
             r.add(f"{P}/{obl}/spin/{dom}",
                   f"family {fam}: more than {max(20000, 200 * w)} deliveries at t={probe.spin_at} ns "
-                  f"(workload {w}); per class at that instant: {dict(at['by'].most_common(4))}")
+                  f"(workload {w}); per class at that instant: {dict(at['by'].most_common(4))}; "
+                  f"harness workers were suspended inside: {dict(at['inner'].most_common(3))}")
         # (iv) termination
         if outcome == "done":
             end = sim._end_time.nanoseconds if hasattr(sim._end_time, "nanoseconds") else None
@@ -191,8 +234,9 @@ def make_execute(obl, families=None):
             r.labels.append("inconclusive-budget")
         handled_lib = at["handled"] & all_entity_classes()
         exercised = (sc.classes & all_entity_classes())
-        r.nontrivial = bool(outcome != "budget" and probe.n >= 50 and at["later"] and at["cont_later"])
-        r.labels += [f"fam:{fam}", f"outcome:{outcome}", "nt" if r.nontrivial else "trivial"]
+        r.nontrivial = bool(outcome != "budget" and probe.n >= 50 and at["later"])
+        r.labels += [f"fam:{fam}", f"outcome:{outcome}", "nt" if r.nontrivial else "trivial",
+                     "gen-yield" if at["cont_later"] else "no-gen-yield"]
         r.labels += [f"class:{c}" for c in sorted(exercised)]
         cat = catalogue_classes()
         r.labels.append(f"breadth:{len(cat)}/{len(all_entity_classes())}")
